@@ -736,6 +736,19 @@ func init() {
 		e.stringList("patRouterFields", "fields of the struct `patRouter`", c09StructFields(s, pat, "patRouter"))
 		e.c09Access(s, tree, "Tree.Add", "treeAddAccess")
 		e.c09Access(s, tree, "Tree.Search", "treeSearchAccess")
+		// round 5c: the other router wrappers
+		const fsf = "rest/internal/fileserver/filehandler.go"
+		e.c09DetailDef(s, srv, "WithCorsHeaders", "withCorsHeadersStmts")
+		e.c09DetailDef(s, srv, "WithCustomCors", "withCustomCorsStmts")
+		e.c09DetailDef(s, srv, "WithFileServer", "withFileServerStmts")
+		e.c09DetailDef(s, srv, "newFileServingRouter", "newFileServingRouterStmts")
+		e.c09DetailDef(s, srv, "fileServingRouter.ServeHTTP", "fileServingRouterServeStmts")
+		e.c09DetailDef(s, fsf, "Middleware", "fileMiddlewareStmts")
+		e.c09DetailDef(s, fsf, "createServeChecker", "serveCheckerStmts")
+		e.c09Cond(s, fsf, "createServeChecker", "condServeChecker", c09RetField(1, ""), []c09Param{{"r.Method", "method", "str"},
+			{"strings.HasPrefix(r.URL.Path, pathWithTrailSlash)", "below", "flag"},
+			{"fileChecker(r.URL.Path[len(pathWithTrailSlash):])", "found", "flag"}})
+		e.c09Body(s, fsf, "ensureTrailingSlash", "ensureTrailingSlashBody", []c09Param{{"strings.HasSuffix(path, \"/\")", "slash", "flag"}})
 		// round 5: what the constructed values are fed from
 		e.c09Fields(s, srv, "WithPrefix", "Route", "withPrefixRouteFields")
 		e.c09Calls(s, srv, "WithPrefix", "withPrefixCalls")
